@@ -1,3 +1,4 @@
+import Aldy.Generated.Constants
 /-!
 Model of the coordinate handling of `aldy/gene.py`:
 * `mkMaps`        = RefSeq <-> genome maps from the alignment string (`_init_basic`, lines 407-427)
@@ -114,11 +115,24 @@ def convertRev (pos : Int) : VKind → Int × VKind
   | .del x => (pos + (x.length : Int) + 3 - 4, .del (revComp x))
   | .other => (pos, .other)
 
+/-- number of reference bases a variant replaces -/
+def spanLen : VKind → Nat
+  | .sub l _ => l.length
+  | .del x => x.length
+  | .delins d _ => d.length
+  | _ => 1
+
+/-- `_is_contiguous`: the replaced RefSeq bases (walking with the strand from the 0-based RefSeq
+position `r0` that maps to genome `g`) occupy consecutive genome positions -/
+def spanContiguous (m : Maps) (r0 g : Int) (k : VKind) : Bool :=
+  (List.range (spanLen k)).all fun (i : Nat) => m.refToChr (r0 + (i : Int) * m.strand) == some (g + (i : Int))
+
 /-- the loaded variant: 0-based genome position and genome-strand operation; `none` when the
 RefSeq position is not mapped -/
 def convertMut (m : Maps) (pos1 : Int) (k : VKind) : Option (Int × VKind) :=
   let (p, k') := if m.strand < 0 then convertRev pos1 k else (pos1, k)
-  (m.refToChr (p - 1)).map fun g => (g, k')
+  (m.refToChr (p - 1)).bind fun g =>
+    if Const.LOADER_CHECKS_CONTIGUITY && !spanContiguous m (p - 1) g k' then none else some (g, k')
 
 /-- `_reverse_op` -/
 def reverseOp : VKind → VKind
